@@ -11,7 +11,7 @@ ASSUMPTIONS = ["numpy on one row is the reference (np.cumsum / ufunc.accumulate 
                "values only; no NaN (numpy's own NaN conventions for sort/unique are outside the statement)",
                "cumsum on bool / float input is documented as rejected by the library: refusal or the right answer are both accepted"]
 REQUIRED_FEATURES = ["empty_row_first", "empty_row_last", "all_rows_empty", "zero_rows", "duplicates_across_row_boundary",
-                     "diff_order_exceeds_row", "unique_counts", "accumulate", "same_object_sequence"]
+                     "diff_order_exceeds_row", "unique_counts", "accumulate", "same_object_sequence", "close_64bit_values"]
 BOUNDS = {"quick": "LV(4,3) x {bool,int8,int64,uint8,uint64,float64} x 3 patterns x {cumsum (method, function), add/subtract/xor.accumulate, "
                    "sort (method), unique, unique+counts, diff n=0..4}; operand unchanged",
           "thorough": "LV(5,3) u LV(3,5), plus int16/int32/float32, diff n=0..6"}
@@ -30,6 +30,9 @@ def shards(tier):
 
 
 BIG = {"inf": [1.0, float("inf"), 2.0, 3.0, 0.5], "1e16": [1e16, 1.0, 1.0, 2.0, 0.25]}
+# 64-bit neighbours that float64 cannot tell apart, in descending order (sorting / de-duplicating through a float key leaves them as they are)
+CLOSE64 = {"uint64": [2 ** 64 - 1, 2 ** 64 - 2, 2 ** 53 + 1, 2 ** 53, 5, 2 ** 64 - 1, 2 ** 63 + 1, 2 ** 63],
+           "int64": [2 ** 63 - 1, 2 ** 63 - 2, 2 ** 53 + 1, 2 ** 53, -5, -2 ** 63 + 1, -2 ** 63, 2 ** 62 + 1]}
 
 
 def cases(shard, tier):
@@ -50,6 +53,9 @@ def cases(shard, tier):
                 yield [lens, dt, k, op]
             for nd in range(nmax + 1):
                 yield [lens, dt, k, f"diff{nd}"]
+        if dt in CLOSE64:
+            for op in ("sort_m", "sort_default", "unique", "unique_c"):
+                yield [lens, dt, "close64", op]
         if dt in ("int64", "uint8"):
             # one object asked again and again (contiguous, and as a selection nothing has read yet)
             yield [lens, dt, 0, "seq_contig"]
@@ -119,7 +125,11 @@ def check(case, acc):
             acc.feature("empty_row_last")
         if size == 0:
             acc.feature("all_rows_empty")
-    flat = dsl.pattern(dt, size, k) if not isinstance(k, str) else np.array(BIG[k][:size], dtype=dt)
+    if k == "close64":
+        acc.feature("close_64bit_values")
+        flat = np.array((CLOSE64[dt] * (size // 8 + 1))[:size], dtype=dt)
+    else:
+        flat = dsl.pattern(dt, size, k) if not isinstance(k, str) else np.array(BIG[k][:size], dtype=dt)
     rows = dsl.split_rows(flat, lens)
     for a, b in zip(rows, rows[1:]):
         if len(a) and len(b) and a[-1] == b[0]:
